@@ -7,3 +7,7 @@ package service
 //@   field logger nullable
 //@   field cAddr nullable
 //@   field sname nullable
+
+//@ func (*service.Settings).Logger(s) (r)
+//@   pure
+//@   ensures r == s.logger
